@@ -2,7 +2,21 @@
 
 package sbi
 
-import "github.com/gin-gonic/gin"
+import (
+	"sync"
+
+	"github.com/gin-gonic/gin"
+)
 
 // VerifRouter exposes the router built by NewServer to the verification harness (overlay only).
 func VerifRouter(s *Server) *gin.Engine { return s.router }
+
+// VerifStartServer runs the real startServer on an already closed http.Server: ListenAndServe(TLS)
+// then returns http.ErrServerClosed at once, so scheme and certificate handling are executed without
+// opening a socket (overlay only).
+func VerifStartServer(s *Server) {
+	_ = s.httpServer.Close()
+	var wg sync.WaitGroup
+	wg.Add(1)
+	s.startServer(&wg)
+}
